@@ -29,7 +29,7 @@ func (c07) Rule() string {
 		"assertion flags, codes, telemetry keys, tags, sentinels, registered user types); the tree e and its twin e' (every hidden sub-tree of a barrier / secondary error / error argument " +
 		"replaced by a bare error with the same text) travel the same route over knowing and unknowing processes; differential oracle per delivery: visible chain (types, texts), UnwrapAll, " +
 		"every accessor, HasType/As for every hidden type, the nodes shown to If, Is/IsAny against every hidden node and sentinel agree between e and e'; direct oracles: Handled keeps the " +
-		"text, *WithMessage replaces it, Mark adds no accessor result and no match on inner layers of its reference, the hidden error is visible in %+v; " +
+		"text, *WithMessage replaces it (an empty replacement included, which must not hide the hidden error from %+v), Mark adds no accessor result and no match on inner layers of its reference, the hidden error is visible in %+v; " +
 		"distinct = (constructor-shape signature x profile sequence); non-trivial = at least one hidden sub-tree with >= 2 nodes or an annotation"
 }
 
